@@ -981,12 +981,29 @@ def string_deref(m, mt, args, tys, dty):
     return str_slice(args[0])
 
 
+def int_render_len(m, c, max_digits=45):
+    """number of characters of a rendered (possibly symbolic) integer: forks on sign and digit count"""
+    t = c.t
+    if not is_sym(t):
+        return len(('+' if (c.plus and t >= 0) else '') + str(t))
+    neg = m.branch_bool(t < 0)
+    mag = -t if neg else t
+    d = m.choose_n(max_digits + 1, lambda k: (mag == 0) if k == 0 else (z3.And(mag >= 10 ** (k - 1), mag < 10 ** k) if k < max_digits else mag >= 10 ** (max_digits - 1)))
+    if d == max_digits:
+        raise BoundExceeded('rendered integer with more than %d digits' % (max_digits - 1))
+    return (1 if d == 0 else d) + (1 if (neg or c.plus) else 0)
+
+
 @summary(r'std::string::String::len|core::str::<impl str>::len')
 def string_len(m, mt, args, tys, dty):
     it = str_items(args[0])
-    if any(isinstance(c, IntRender) for c in it):
-        raise Unsupported('len of string with symbolic integer rendering')
-    return len(it)
+    n = 0
+    for c in it:
+        if isinstance(c, IntRender):
+            n += int_render_len(m, c)
+        else:
+            n += 1
+    return n
 
 
 @summary(r'core::str::<impl str>::is_empty')
